@@ -153,7 +153,11 @@ using CfgC = ffsm2::Config::ContextT<Ctx&>;
 using CfgC = ffsm2::Config::ContextT<Ctx*>;
 #endif
 
-#if VH_MANUAL
+#ifndef VH_CFGORDER
+#define VH_CFGORDER 0		// 0: activation, limit, capacity, payload;  1: limit, capacity, payload, activation (the modifiers must commute)
+#endif
+
+#if VH_MANUAL && !VH_CFGORDER
 using CfgM = CfgC::ManualActivation;
 #else
 using CfgM = CfgC;
@@ -168,9 +172,15 @@ using CfgT = CfgL;
 #endif
 
 #if VH_PAY
-using Cfg = CfgT::PayloadT<Pay>;
+using CfgP = CfgT::PayloadT<Pay>;
 #else
-using Cfg = CfgT;
+using CfgP = CfgT;
+#endif
+
+#if VH_MANUAL && VH_CFGORDER
+using Cfg = CfgP::ManualActivation;
+#else
+using Cfg = CfgP;
 #endif
 
 using M = ffsm2::MachineT<Cfg>;
